@@ -43,6 +43,16 @@ def ty_bits(v):
 
 
 class I(Interp):
+    def eval(self, e, env):
+        # struct update syntax: `NumberType { ty: x, ..base }` takes the remaining fields from base
+        if e.get("k") == "struct" and e.get("rest") is not None:
+            base = self.eval(e["rest"], env)
+            if isinstance(base, Obj):
+                fields = dict(base.fields)
+                fields.update({f[0]: self.eval(f[1], env) for f in e["f"]})
+                return Obj(base.name, **fields)
+        return Interp.eval(self, e, env)
+
     def default_method(self, recv, m, args, e):
         if m == "ins":
             return BUILDER
@@ -224,6 +234,18 @@ def r08b(ctx, run):
     for fr in types:
         for to in types:
             it = I()
+            depth = [0]
+
+            def rec(i, a, it=it, depth=depth):
+                # cast_num calling itself (a conversion in two steps): run from source again
+                depth[0] += 1
+                if depth[0] > 3:
+                    raise Panic("cast_num recurses without end")
+                try:
+                    return i.run_fn(fn, dict(zip(fn.param_names(), a)))
+                finally:
+                    depth[0] -= 1
+            it.funcs["cast_num"] = rec
             env = {"builder": BUILDER, "val": Term("val"), "cast_from": numty(*fr), "cast_to": numty(*to)}
             name = lambda x: ("f%d" % BITS[x[0]]) if x[1] else ("%s%d" % ("i" if x[2] else "u", BITS[x[0]]))
             what = "cast_num(%s -> %s)" % (name(fr), name(to))
